@@ -92,6 +92,10 @@ var syncTypes = map[string]bool{"Mutex": true, "RWMutex": true, "WaitGroup": tru
 // orderableKey: 1 = cmp.Ordered basic key, 2 = comparable aggregate of basics (struct/array),
 // 0 = leave native.
 func orderableKey(t types.Type) int {
+	if _, ok := t.(*types.TypeParam); ok {
+		// generic containers (obiutils.Set, min/max helpers): ordered by the printed value
+		return 2
+	}
 	switch u := t.Underlying().(type) {
 	case *types.Basic:
 		if u.Info()&(types.IsString|types.IsInteger|types.IsFloat) != 0 {
